@@ -935,3 +935,156 @@ Proof.
   split; [exact idna_long_ok2|]. destruct long_premises_hold as (H1 & H2 & H3 & H4 & H5).
   repeat (split; [assumption|]). unfold run_clean. vm_compute. repeat split; reflexivity.
 Qed.
+
+(* ====================================================================================== *)
+(* task c09fin: the premises of the C09_inst2_* theorems discharged / made result-level   *)
+(* ====================================================================================== *)
+From RU Require Import Proofs.C09_Uts46 Proofs.C09_RunClean Proofs.C09_Inst2 Proofs.C05_HostParse.
+From RU Require Proofs.Idna_WalkEnc Proofs.Idna_C10_Inner Proofs.Idna_C10b_Stmt Proofs.Idna_C10c_Drun Proofs.Idna_C10c_Example
+  Proofs.C02_Reach3 Proofs.C02_Reach5 Proofs.C03_ParseFront Proofs.C05_ReachF Proofs.C05_HostInst Proofs.C05_HostText
+  Proofs.C05_Alphabet Proofs.C04_ParseTotal Proofs.C05_CompSteps.
+
+(* ---- IdnaOK2 for the IDNA MODEL (Model/Uts46.v called as host.rs calls it) from the PROVED theorems of C10: clause 1 from
+   C10_ascii (NvNoTrunc), clause 2 from C10_idem3 (the six sampled adapter facts), clause 3 - dotted-decimal text is mapped
+   to itself - from C10_an for EVERY adapter (the text of an Ipv4Addr is in the adapter-free class AN).  The premises are
+   facts about the ADAPTER only (idna_adapter: normalizer and tables), each sampled on the real crate by the `adapter`
+   stream of the harness ---- *)
+Theorem C09_IdnaOK2_uts46 : forall A cfg,
+  Idna_Hyp.AdapterOK A -> Idna_WalkEnc.AdapterUSV A -> Idna_C10_Inner.NvNoTrunc A -> Idna_C10b_Stmt.NvIdem A ->
+  Idna_C10b_Stmt.AsciiNoMark A -> Idna_C10c_Drun.MapPrefix A -> IdnaOK2 (idna_of A cfg).
+Proof. exact IdnaOK2_uts46. Qed.
+Check C09_IdnaOK2_uts46 : forall A cfg,
+  Idna_Hyp.AdapterOK A -> Idna_WalkEnc.AdapterUSV A -> Idna_C10_Inner.NvNoTrunc A -> Idna_C10b_Stmt.NvIdem A ->
+  Idna_C10b_Stmt.AsciiNoMark A -> Idna_C10c_Drun.MapPrefix A -> IdnaOK2 (idna_of A cfg).
+Print Assumptions C09_IdnaOK2_uts46.
+
+(* the dotted-decimal clause, every adapter: ToASCII at the options of host.rs maps a text of digits and dots to itself *)
+Theorem C09_v4_fixed : forall A cfg, v4_fixed A cfg.
+Proof. exact v4_fixed_all. Qed.
+Check C09_v4_fixed : forall A cfg a, a < 4294967296 ->
+  exists b, to_ascii A cfg (ipv4_display a) DENY_URL HAllow DIgnore = U32_c13.Ok (b, ipv4_display a).
+Print Assumptions C09_v4_fixed.
+
+(* the six premises are satisfiable (adapter lowsan of Proofs/Idna_C10c_Example.v) *)
+Example C09_IdnaOK2_uts46_inhabited : IdnaOK2 (idna_of Idna_C10c_Example.lowsan true).
+Proof. exact IdnaOK2_uts46_lowsan. Qed.
+
+(* ---- run_clean from the RESULT.  ht u = the stored host text (the slice [host_start, host_end) of the serialization).
+   res_clean u = ht u is outside Known_C10_long, and a file URL has kept its host.  A run of the parser calls Host::parse
+   at most once and stores the Display text of the host it got as the host text of the result (host-text tracking through
+   after_double_slash and the file host state); so a successful run whose result passes res_clean is a clean run ---- *)
+Check (eq_refl : res_clean = fun u =>
+  negb (known_c10_long (ht u)) && (negb (list_eqb (b_scheme u) s_file) || has_host u)).
+Check (eq_refl : ht = fun u => C03_WF.piece u (host_start u) (host_end u)).
+
+Theorem C09_run_clean_result : forall dbg idna, IdnaOK2 idna -> forall ovr base input u,
+  match base with Some b => wf_b b = true | None => True end ->
+  parse_url dbg (host_parse idna) host_parse_opaque host_display ovr base input = POk u -> res_clean u = true ->
+  run_clean dbg idna ovr base input.
+Proof. exact run_clean_of_result. Qed.
+Check C09_run_clean_result : forall dbg idna, IdnaOK2 idna -> forall ovr base input u,
+  match base with Some b => wf_b b = true | None => True end ->
+  parse_url dbg (host_parse idna) host_parse_opaque host_display ovr base input = POk u -> res_clean u = true ->
+  parse_url dbg (host_parse (cap idna)) host_parse_opaque host_display ovr base input
+    = parse_url dbg (host_parse idna) host_parse_opaque host_display ovr base input.
+Print Assumptions C09_run_clean_result.
+
+(* the file clause of res_clean cannot be dropped: for file URLs the path parser drops the host in front of a Windows drive
+   letter, so Url::parse("file://x/C:/") = file:///C:/ has no host text although the run parsed the host x - with the
+   stand-in oracle, a host inside the class: the capped run is PErr IdnaError *)
+Theorem C09_run_clean_file_refuted :
+  (match parse_url true (host_parse idna_long) host_parse_opaque host_display None None wq_input with
+   | POk u => list_eqb (ser u) (B "file:///C:/") && hi_eqb (hosti u) HI_None && negb (known_c10_long (ht u))
+              && negb (res_clean u)
+   | _ => false
+   end = true
+   /\ parse_url true (host_parse (cap idna_long)) host_parse_opaque host_display None None wq_input = PErr IdnaError
+   /\ ~ run_clean true idna_long None None wq_input)
+  /\ ~ (forall dbg idna, IdnaOK2 idna -> forall input u,
+          parse_url dbg (host_parse idna) host_parse_opaque host_display None None input = POk u ->
+          known_c10_long (ht u) = false -> run_clean dbg idna None None input).
+Proof. exact (conj run_clean_file_refuted run_clean_needs_file_clause). Qed.
+Print Assumptions C09_run_clean_file_refuted.
+Check (eq_refl : wq_input = B "file://x/C:/").
+
+(* the three mutators that call Host::parse (Url::set_host, quirks set_host / set_hostname; a refused host leaves the URL
+   as it was with either oracle): a step from a well-formed URL whose RESULT has its host text outside the class is a
+   clean step (the step with the capped oracle is the same step) *)
+Theorem C09_step_clean_result : forall dbg idna, IdnaOK2 idna -> forall u o u', wf_b u = true ->
+  C05_History.apply_op dbg (host_parse idna) host_parse_opaque host_display u o = Some u' ->
+  known_c10_long (ht u') = false -> step_clean dbg idna u o.
+Proof. exact step_clean_of_result. Qed.
+Check C09_step_clean_result : forall dbg idna, IdnaOK2 idna -> forall u o u', wf_b u = true ->
+  C05_History.apply_op dbg (host_parse idna) host_parse_opaque host_display u o = Some u' ->
+  known_c10_long (ht u') = false ->
+  C05_History.apply_op dbg (host_parse (cap idna)) host_parse_opaque host_display u o
+    = C05_History.apply_op dbg (host_parse idna) host_parse_opaque host_display u o.
+Print Assumptions C09_step_clean_result.
+
+Example C09_res_clean_examples :
+  match parse_url true (host_parse idna_long) host_parse_opaque host_display None None (B "http://a.b:81/p") with
+  | POk u => res_clean u && list_eqb (ht u) (B "a.b")
+             && match C05_History.apply_op true (host_parse idna_long) host_parse_opaque host_display u (C05_History.OQHost (B "c.d:82")) with
+                | Some u' => list_eqb (ser u') (B "http://c.d:82/p") && negb (known_c10_long (ht u'))
+                | None => false
+                end
+  | _ => false
+  end = true
+  /\ match parse_url true (host_parse idna_long) host_parse_opaque host_display None None (B "file://a.b/p") with
+     | POk u => res_clean u | _ => false end = true
+  /\ match parse_url true (host_parse idna_long) host_parse_opaque host_display None None (B "http://x/") with
+     | POk u => res_clean u | _ => true end = false.
+Proof. exact res_clean_examples. Qed.
+
+(* ---- the *_model theorems of C02 / C03 / C05 (stated relative to IdnaOK: vacuous for the real crate) re-stated for the
+   oracle ITSELF: IdnaOK2 + the result-level premise (parse results) or the histories of the capped model ---- *)
+(* C02 classes (i)-(iv): C09_inst2_C02_reparse_nonfile with the per-run premise replaced by the host text of the result *)
+Theorem C09_inst2_C02_reparse_nonfile_res : forall dbg idna, IdnaOK2 idna -> forall input u,
+  usv_list input -> nonfile_input input = true ->
+  parse_url dbg (host_parse idna) host_parse_opaque host_display None None input = POk u ->
+  b_scheme u <> s_file -> known_c10_long (ht u) = false ->
+  parse_url dbg (host_parse idna) host_parse_opaque host_display None None (utf8_lossy (ser u)) = POk u
+  /\ run_clean dbg idna None None (utf8_lossy (ser u)) /\ wf_b u = true /\ ascii (ser u).
+Proof. exact reparse_nonfile_res. Qed.
+Print Assumptions C09_inst2_C02_reparse_nonfile_res.
+
+(* C03_parse_reachability / C05_parse_base_ok (C09_inst_C03_parse_reachability, C09_inst_C05_parse_base_ok) *)
+Theorem C09_inst2_C03_parse_reachability : forall dbg idna, IdnaOK2 idna -> forall ovr base input u,
+  match base with Some b => base_ok b = true /\ C06_Suffix.host_text_ok b | None => True end ->
+  parse_url dbg (host_parse idna) host_parse_opaque host_display ovr base input = POk u -> res_clean u = true ->
+  (wf_b u = true /\ C06_Suffix.host_text_ok u) /\ base_ok u = true.
+Proof.
+  exact (fun dbg idna OK ovr base input u Hb H C =>
+           conj (parse_wf_model2 dbg idna OK ovr base input u Hb H C) (proj1 (parse_base_ok_model2 dbg idna OK ovr base input u Hb H C))).
+Qed.
+Print Assumptions C09_inst2_C03_parse_reachability.
+
+(* C05_components_parse (C09_inst_C05_components_parse): the five component clauses of the property text *)
+Theorem C09_inst2_C05_components_parse : forall dbg idna, IdnaOK2 idna -> forall dbg' ovr base input u,
+  match base with Some b => CInv dbg' b /\ base_ok b = true | None => True end ->
+  parse_url dbg (host_parse idna) host_parse_opaque host_display ovr base input = POk u -> res_clean u = true ->
+  CInv dbg' u /\ components_clean dbg' u.
+Proof. exact parse_components_model2. Qed.
+Print Assumptions C09_inst2_C05_components_parse.
+
+(* C03_reachability_full_model (the invariant inv03 = wfh, AS, PN, HE along parse, join and all mutators), C05_reachF_model
+   (the property text of C05 along CReachF), C02_reach_partial4_model (the re-parse fixpoint along ReachC4) for the
+   histories of the CAPPED model; the re-parse of C02 is a run with the oracle ITSELF and a clean one *)
+Theorem C09_inst2_C03_reachability_full : forall dbg idna, IdnaOK2 idna -> forall u,
+  C02_Reach3.Reachable3 dbg (host_parse (cap idna)) host_parse_opaque host_display u -> C03_ParseFront.inv03 u.
+Proof. exact reach3_model2. Qed.
+Print Assumptions C09_inst2_C03_reachability_full.
+
+Theorem C09_inst2_C05_reachF : forall dbg idna, IdnaOK2 idna -> forall u,
+  C05_ReachF.CReachF dbg (host_parse (cap idna)) host_parse_opaque host_display u ->
+  (wfh u /\ components_clean dbg u) /\ C05_Alphabet.alphabet_ok u /\ sharp u /\ base_ok u = true
+  /\ (C05_HostText.spb u = true -> forall s, host_str u = Some (Some s) -> C05_HostInst.host_text_clean s).
+Proof. exact reachF_model2. Qed.
+Print Assumptions C09_inst2_C05_reachF.
+
+Theorem C09_inst2_C02_reach_partial4 : forall dbg idna, IdnaOK2 idna -> forall u,
+  C02_Reach5.ReachC4 dbg (host_parse (cap idna)) host_parse_opaque host_display u ->
+  parse_url dbg (host_parse idna) host_parse_opaque host_display None None (utf8_lossy (ser u)) = POk u
+  /\ run_clean dbg idna None None (utf8_lossy (ser u)) /\ wf_b u = true /\ ascii (ser u).
+Proof. exact reach_partial4_model2. Qed.
+Print Assumptions C09_inst2_C02_reach_partial4.
